@@ -259,7 +259,13 @@ pub fn buffer_bin_and_not(
 /// # See Also
 /// * [`BooleanBuffer::from_bitwise_unary_op`] for creating `BooleanBuffer`s directly
 pub fn buffer_unary_not(left: &Buffer, offset_in_bits: usize, len_in_bits: usize) -> Buffer {
-    BooleanBuffer::from_bitwise_unary_op(left, offset_in_bits, len_in_bits, |a| !a).into_inner()
+    let result = BooleanBuffer::from_bitwise_unary_op(left, offset_in_bits, len_in_bits, |a| !a);
+    // Normalize non-zero BooleanBuffer offsets back to a zero-offset Buffer.
+    if result.offset() == 0 {
+        result.into_inner()
+    } else {
+        result.sliced()
+    }
 }
 
 #[cfg(test)]
